@@ -165,6 +165,69 @@ def twin_dispatch_oracle(rep, rng, tier, names):
                 break
 
 
+def via_stream(c, foreign):
+    """The window through the WHOLE TracesParser (feed_generator under the bundled table) with foreign records of the same thread
+    spliced in behind its START: the texts of the traces whose first record is the window's START, or `raise <exception>`.
+    foreign: [(event id | qualifier, [4 words])]."""
+    from pykdebugparser.kevent import from_kd_buf
+    from pykdebugparser.traces_parser import TracesParser
+    from .. import impl
+    recs = D.window_events(c)
+    extra = [impl.record_args(2 + i, w, c['tid'], dbg) for i, (dbg, w) in enumerate(foreign)]
+    events = [from_kd_buf(r) for r in recs[:1] + extra + recs[1:]]
+    own = events[0]
+    out = []
+    try:
+        for t in TracesParser(dict(D.CODES), {}, {}).feed_generator(iter(events)):
+            if t.ktraces and t.ktraces[0] is own:
+                out.append(str(t))
+    except Exception as e:
+        return 'raise ' + core.err_name(e)
+    return ' ;; '.join(out) if out else 'none'
+
+
+def twin_stream_oracle(rep, rng, tier, names):
+    """The twins through the pairing: X and X_nocancel between the same foreign records.  For every pair, a window with one
+    foreign record behind its START — every id of the bundled table (a sample in the quick tier of an unchanged source) as a
+    START, as an END and unqualified — and with two: what the stream gives for X_nocancel (a text, nothing, an exception) it
+    gives for X, the text differing only in the suffix of the call name."""
+    from .. import mined
+    sec = rep.section('twins-stream')
+    ids = sorted(D.CODES)
+    full = tier != 'quick' or bool(mined.changed_files())
+    sec['rule'] = ('every X_nocancel / X pair through TracesParser.feed_generator under the bundled table, with one foreign '
+                   'record of the same thread behind the START — %s ids of the bundled table as START / END / unqualified — and '
+                   'with pairs of them: the outcome for X_nocancel must be the outcome for X (text with "_nocancel" appended to '
+                   'the call name / nothing / the same exception)' % ('all %d' % len(ids) if full else '80 sampled'))
+    every = sorted(names)
+    for n in every:
+        if not n.endswith('_nocancel') or n[:-9] not in names or n not in D.IDS or n[:-9] not in D.IDS:
+            continue
+        base = n[:-9]
+        c = D.make_case(rng, n)
+        c['end'] = [0, 3, 0, 0]
+        pick = ids if full else rng.sample(ids, 80)
+        singles = [[(i | q, [1, 2, 3, 4])] for i in pick for q in ((1,) if full else (1, 2, 0))]
+        if full:
+            singles += [[(i | q, [1, 2, 3, 4])] for i in rng.sample(ids, 300) for q in (2, 0)]
+        pairs = [[(rng.choice(ids) | 1, [1, 2, 3, 4]), (rng.choice(ids) | rng.choice((1, 2, 0)), [5, 6, 7, 8])] for _ in range(40)]
+        for foreign in singles + pairs:
+            if any((f[0] & ~3) in (D.IDS[n], D.IDS[base]) for f in foreign):
+                continue                        # a record of the pair's own codes is not foreign
+            a, b = via_stream(c, foreign), via_stream(dict(c, name=base), foreign)
+            sec['cases'] += 1
+            if a.startswith('raise') or a == 'none':
+                bad = a != b
+            else:
+                sec['distinct_nontrivial'] += 1
+                bad = b.startswith('raise') or b == 'none' or twins_differ(a, b)
+            if bad:
+                rep.add_failure('twins:stream-differs:' + n, 'through feed_generator, with %s behind the START, %s gives %r where %s '
+                                'gives %r' % (['%#x' % f[0] for f in foreign], n, a[:300], base, b[:300]),
+                                {'section': 'twins-stream', 'case': c, 'base': base, 'foreign': foreign})
+                break
+
+
 FAMILY_MODULES = ['bsd', 'dyld', 'fsystem', 'mach', 'perf', 'trace', 'turnstile']
 
 
@@ -316,6 +379,7 @@ def correspondence(rep, rng, tier):
                        syntax=6 if tier == 'quick' else 1000)
     twin_oracle(rep, rng, tier, set(D.all_handler_names()))      # every registered twin, translated or not
     twin_dispatch_oracle(rep, rng, tier, set(D.all_handler_names()))
+    twin_stream_oracle(rep, rng, tier, set(D.all_handler_names()))
     st = D.stats()
     if st['total'] != len(seen):
         rep.broken.append('reflection: Gen.Decoders lists %d handlers, the real tables %d' % (st['total'], len(seen)))
@@ -355,6 +419,14 @@ def replay(path):
         print('model:', core.drive([D.line(c)])[0])
         if got.startswith('unstable'):
             rep.add_failure('decoder:renders-differently', 'two renderings differ', rp)
+    elif rp.get('section') == 'twins-stream':
+        c, foreign = rp['case'], [tuple(f) for f in rp['foreign']]
+        a, b = via_stream(c, foreign), via_stream(dict(c, name=rp['base']), foreign)
+        print('%-28s: %r' % (c['name'], a))
+        print('%-28s: %r' % (rp['base'], b))
+        rejected = a.startswith('raise') or a == 'none'
+        if (a != b) if rejected else (b.startswith('raise') or b == 'none' or twins_differ(a, b)):
+            rep.add_failure('twins:stream-differs', 'differ', rp)
     elif rp.get('section') == 'twins-dispatch':
         c = rp['case']
         a, b = via_dispatch(c), via_dispatch(dict(c, name=rp['base']))
